@@ -1,0 +1,21 @@
+//go:build verif
+
+package shard
+
+import (
+	meta "github.com/nspcc-dev/neofs-node/pkg/local_object_storage/metabase"
+	"github.com/nspcc-dev/neofs-node/pkg/local_object_storage/writecache"
+)
+
+// VerifShardaMeta exposes the shard's metabase to the verification harness
+// (state projection only).
+func (s *Shard) VerifShardaMeta() *meta.DB { return s.metaBase }
+
+// VerifShardaWC exposes the shard's write-cache (nil if disabled) to the
+// verification harness (state projection only).
+func (s *Shard) VerifShardaWC() writecache.Cache {
+	if !s.hasWriteCache() {
+		return nil
+	}
+	return s.writeCache
+}
